@@ -5,6 +5,8 @@ documented semantics), maps the small records onto it and lets the Lean definiti
 real FASTA."""
 from __future__ import annotations
 import random
+from pathlib import Path
+import shutil
 import traceback
 from typing import Dict, List, Optional, Set
 
@@ -473,6 +475,56 @@ def combo_worker(job):
         out['headers'] = {s: h for s, h in run.fasta.items()}
         out['stats']['runs'] = 1
         out['stats']['real_peptides'] = len(run.fasta)
+        return out
+    except Exception:   # noqa
+        out['stats']['worker_error'] = 1
+        out['error'] = traceback.format_exc()[-1500:]
+        return out
+    finally:
+        case.cleanup()
+
+
+def circ_dup_worker(job):
+    """one gene, one circRNA + 0-3 small records; the circRNA GVF is supplied TWICE under two file
+    names (the same back-splice reported by two callers / runs).  Every header entry string of the
+    FASTA must occur once, and the peptide set must equal that of the run with the file once."""
+    seed, tier, opts = job
+    rng = random.Random(seed)
+    out = {'stats': {}, 'seed': seed}
+    case = gen_ref.Case(gen_ref.work_dir('cdup'))
+    try:
+        import collections
+        import random as _r
+        from moPepGen import fake
+        with gen_ref.quiet():
+            gen_ref.make_reference(case, seed, 1)
+            genome, anno, _ = gen_ref.load_reference(case)
+        tx = list(anno.transcripts)[0]
+        _r.seed(rng.randrange(1 << 30))
+        try:
+            circ = fake.fake_circ_rna_model(anno, tx)
+        except Exception:   # noqa
+            out['stats']['no_circ'] = 1
+            return out
+        small = gen_ref.dense_variants(anno, genome, tx, rng, rng.randint(0, 3), max_size=3, window=200)
+        with gen_ref.quiet():
+            gen_ref.write_gvfs(case, small + [circ])
+        cfile = [p for p in case.gvfs if 'circ' in Path(p).name]
+        if not cfile:
+            out['stats']['no_circ'] = 1
+            return out
+        c2 = Path(case.dir) / 'circ_b.gvf'
+        shutil.copy(cfile[0], c2)
+        kw = cv_explore.default_kw(rng, True, None)
+        once = gen_ref.run_call_variant(case, tag='once', **kw)
+        twice = gen_ref.run_call_variant(case, tag='twice', input_path=list(case.gvfs) + [c2], **kw)
+        out['desc'] = {'seed': seed, 'kw': kw, 'circ': circ.id, 'small': [r.id for r in small]}
+        ents = [e for _s, h in twice.fasta.items() for hh in h for e in hh.split(' ')]
+        out['dups'] = sorted(k for k, v in collections.Counter(ents).items() if v > 1)[:5]
+        out['status'] = (once.status, twice.status)
+        out['once'] = sorted(once.fasta.keys())
+        out['twice'] = sorted(twice.fasta.keys())
+        out['stats']['runs'] = 1
         return out
     except Exception:   # noqa
         out['stats']['worker_error'] = 1
